@@ -351,7 +351,18 @@ def apply_op(cur, o):
         elif k == "append":
             cur.append(pool_obj(o["c"]))
         elif k == "extend":
-            cur.extend([pool_obj(t) for t in o["l"]])
+            objs = [pool_obj(t) for t in o["l"]]
+            how = o.get("as", "list")        # extend takes ANY iterable of components: same model step for all forms
+            if how == "tuple":
+                cur.extend(tuple(objs))
+            elif how == "generator":
+                cur.extend(g for g in objs)
+            elif how == "iterator":
+                cur.extend(iter(objs))
+            elif how == "map":
+                cur.extend(map(lambda g: g, objs))
+            else:
+                cur.extend(objs)
         elif k == "insert":
             cur.insert(int(o["i"]), pool_obj(o["c"]))
         elif k == "remove":
@@ -569,7 +580,7 @@ def gen_op(rng, cur, valid):
                 l = [int(_pick(rng, same)) for _ in range(int(rng.integers(0, 3)))]
                 if not valid and diff:
                     l.insert(int(rng.integers(len(l) + 1)), int(_pick(rng, diff)))
-            return {"op": "extend", "l": l}
+            return {"op": "extend", "l": l, "as": str(_pick(rng, ["list", "list", "tuple", "generator", "iterator", "map"]))}
         if k == "insert":
             return {"op": "insert", "i": int(rng.integers(-L - 2, L + 3)),
                     "c": int(_pick(rng, same if valid or not diff else diff))}
